@@ -6,6 +6,9 @@ Request:  <consumer cap> ; <sid>:<topic>:<live 0|1>:<cap> … ; <action> …
            P<sid>:<op>   ToSync::Payload(op) is sent on session_handle(sid)
            S<sid>        one poll of session sid's run future (everything queued: live channel first, then remote)
            C<sid>        the manager event stream is drained while only session sid has events pending
+           Y<sid>[:<op>,<op>…]  session sid runs its sync phase, in which its remote sends these operations, and
+                         goes on until it blocks in live mode (or ends, without live mode); every session
+                         needs its Y before any R / S
 Answer:   <sid>=<Live messages written to its remote, comma separated | -> … | <sid>.<op> … (events returned to the consumer)
 -/
 open P2 P2.Dedup P2.LiveFwd P2.Drv
@@ -16,20 +19,29 @@ def parseSess (t : String) : Option Sess :=
     if live ≤ 1 then some (newSess sid topic (live == 1) cap) else none
   | _ => none
 
-def parseAct (t : String) : Option (Char × Nat × Option Nat) :=
+def parseAct (t : String) : Option (Char × Nat × List Nat) :=
   match t.toList with
+  | 'Y' :: r =>
+    match (String.ofList r).splitOn ":" with
+    | [a] => a.toNat?.map (fun a => ('Y', a, []))
+    | [a, ops] =>
+      match a.toNat?, (ops.splitOn ",").mapM String.toNat? with
+      | some a, some ops => some ('Y', a, ops)
+      | _, _ => none
+    | _ => none
   | c :: r =>
     match ((String.ofList r).splitOn ":").map String.toNat? with
-    | [some a] => if c = 'S' ∨ c = 'C' then some (c, a, none) else none
-    | [some a, some b] => if c = 'R' ∨ c = 'P' then some (c, a, some b) else none
+    | [some a] => if c = 'S' ∨ c = 'C' then some (c, a, []) else none
+    | [some a, some b] => if c = 'R' ∨ c = 'P' then some (c, a, [b]) else none
     | _ => none
   | [] => none
 
-def applyAct (st : St) : Char × Nat × Option Nat → St
-  | ('R', sid, some op) => st.step (.remote sid op)
-  | ('P', sid, some op) => st.step (.publish sid op)
+def applyAct (st : St) : Char × Nat × List Nat → St
+  | ('R', sid, [op]) => st.step (.remote sid op)
+  | ('P', sid, [op]) => st.step (.publish sid op)
   | ('S', sid, _) => st.run (pollActs st sid)
   | ('C', sid, _) => st.run (drainActs st sid)
+  | ('Y', sid, ops) => st.run (syncActs st sid ops)
   | _ => st
 
 def natsStr (l : List Nat) : String :=
